@@ -63,6 +63,20 @@ def make_space(rng, kind):
     return hps, shape
 
 
+def make_space_dup(rng):
+    """a Choice over strings that lists some of its values more than once (accepted by the library), next to a small Int"""
+    from keras_tuner.engine import hyperparameters as hpm
+    hps = hpm.HyperParameters()
+    vs = rng.sample(["adam", "sgd", "rmsprop", "nadam", "adagrad", "ftrl"], rng.randint(3, 5))
+    vs = vs + [rng.choice(vs) for _ in range(rng.randint(1, 3))]
+    rng.shuffle(vs)
+    hps.Choice("opt", vs)
+    hps.Int("n", 1, 3)
+    with hps.conditional_scope("opt", vs[:2]):
+        hps.Choice("act", ["relu", "tanh", "gelu", "relu"])
+    return hps, "dupchoice"
+
+
 def gen_config(rng, kinds=KINDS, max_trials_choices=(None, 1, 2, 3, 4, 6), workers=(1, 4)):
     kind = rng.choice(kinds)
     cfg = dict(kind=kind, direction=rng.choice(["min", "max"]),
@@ -82,7 +96,10 @@ def gen_config(rng, kinds=KINDS, max_trials_choices=(None, 1, 2, 3, 4, 6), worke
 def make_oracle(cfg, directory):
     import keras_tuner as kt
     from keras_tuner.tuners import randomsearch, gridsearch, hyperband, bayesian
-    hps, shape = make_space(random.Random(cfg["space_seed"]), cfg["kind"])
+    if cfg.get("shape") == "dupchoice":
+        hps, shape = make_space_dup(random.Random(cfg["space_seed"]))
+    else:
+        hps, shape = make_space(random.Random(cfg["space_seed"]), cfg["kind"])
     obj = kt.Objective("score", cfg["direction"])
     common = dict(objective=obj, seed=cfg["seed"], hyperparameters=hps, max_retries_per_trial=cfg["max_retries"],
                   max_consecutive_failed_trials=cfg["max_consec"])
